@@ -750,7 +750,41 @@ func famJSON(r *Rng, o *Out, tier string) {
 		o.count("unreg.json-born")
 		o.emit("(const stable)", res)
 	}
+	// LAST (a registration that goes through stays): the name <-> type tables must stay inverses of each other - a
+	// second caveat type under a name (or a JSON alias) that is taken is refused (the library panics), whatever its
+	// type number; else a set written under that name comes back as the OTHER type
+	{
+		verdict := "stable"
+		for i, name := range []string{"Organization", "ValidityWindow", "Apps", "DeprecatedOrganization"} {
+			name := name
+			typ := macaroon.CaveatType(uint64(macaroon.CavMinUserDefined) + 0x5151 + uint64(i))
+			refused := func() (refused bool) {
+				defer func() {
+					if recover() != nil {
+						refused = true
+					}
+				}()
+				macaroon.RegisterCaveatType(&dupNameCav{typ: typ, name: name})
+				return false
+			}()
+			o.count("registry.duplicate-name")
+			if !refused && verdict == "stable" {
+				verdict = "second-caveat-type-registered-under-the-taken-name:" + name
+			}
+		}
+		o.emit("(const stable)", verdict)
+	}
 }
+
+// dupNameCav: a caveat type of the harness that asks for a name another type already has
+type dupNameCav struct {
+	typ  macaroon.CaveatType
+	name string
+}
+
+func (c *dupNameCav) CaveatType() macaroon.CaveatType   { return c.typ }
+func (c *dupNameCav) Name() string                      { return c.name }
+func (c *dupNameCav) Prohibits(a macaroon.Access) error { return nil }
 
 // jsonReadClass: the class of a json.Unmarshal error.  The one the model predicts is the refusal of a
 // GoogleUserID whose text has more than 128 characters ("bad bigint: too long"); anything else is
